@@ -390,6 +390,17 @@ class FnWeaver:
         off = self.src.toks[cb][1]
         self.edits.append((off, off, [('\n'.join(lines) + '\n', 'tmpl', self.tmpl_file, tline)]))
 
+    def add_after_loop(self, n, lines, tline):
+        """proof block right after the closing brace of loop n (the statement position following the loop)"""
+        ls = self.loops()
+        if n < 1 or n > len(ls):
+            self.lost.append('loop %d of %s (function has %d loops)' % (n, self.qual, len(ls)))
+            return
+        kw, ob = ls[n - 1]
+        cb = self.src.matches()[ob]
+        off = self.src.toks[cb][2]
+        self.edits.append((off, off, [('\n' + '\n'.join(lines) + '\n', 'tmpl', self.tmpl_file, tline)]))
+
     def replace_arm(self, regex, replacement):
         """D8: the block of the match arm whose first line matches `regex` is replaced by `replacement` (nothing is concluded about that arm)"""
         rx = re.compile(regex)
@@ -838,6 +849,8 @@ def weave(unit_path):
                     fw.add_end(blk, blk_line)
                 elif sd == 'loopend':
                     fw.add_loop_end(int(sarg), blk, blk_line)
+                elif sd == 'afterloop':
+                    fw.add_after_loop(int(sarg), blk, blk_line)
                 elif sd == 'replacearm':
                     mm3 = re.match(r'/(.*)/\s*=>\s*(.*)$', sarg)
                     fw.replace_arm(mm3.group(1), mm3.group(2))
